@@ -43,6 +43,7 @@ thread_local! {
 
 pub fn install_hooks() {
     vrl::verif::set_yield_hook(sched::yield_point);
+    vrl::verif::set_blocked_hook(sched::yield_blocked);
     vrl::verif::set_clock_hook(clock_hook);
     std::panic::set_hook(Box::new(|info| {
         let loc = info.location().map(|l| format!("{}:{}", l.file(), l.line())).unwrap_or_default();
